@@ -345,8 +345,11 @@ func (s *Subscription) AddMonitorItems(ctx context.Context, nodes ...Request) ([
 		request.MonitoringMode = node.MonitoringMode
 
 		if node.MonitoringParameters != nil {
-			request.RequestedParameters = node.MonitoringParameters
-			request.RequestedParameters.ClientHandle = handle
+			// the caller may use the same parameters for several nodes:
+			// do not write the client handle into the caller's struct
+			params := *node.MonitoringParameters
+			params.ClientHandle = handle
+			request.RequestedParameters = &params
 		}
 		toAdd = append(toAdd, request)
 	}
